@@ -24,7 +24,7 @@ func init() {
 			"reference model ref/canon (RFC 4034 App. B and §5.1.4, RFC 4509, RFC 6605, RFC 5155 §5, RFC 3110/6605/8080 key formats, RFC 1982) is the oracle; it is itself checked against the worked examples of RFC 4034 §5.4, RFC 5155 App. A, RFC 6605 §6.1 and RFC 8080 §6.1 (go test ./ref/canon)",
 			"DNSKEY values are built as Go structs with PublicKey = standard base64 of the key octets; NSEC3 values as structs with an upper-case (wire-derived) or lower-case (zone-file) base32hex NextDomain",
 			"digest types other than 1, 2, 4 have no value defined by the RFCs the statement names: for them only the absence of a panic and the tag/algorithm/type fields of a non-nil result are checked",
-			"key tag space bounds key octets at 3000 (KeyTag uses a 4096-octet buffer; longer keys are outside the enumerated space)",
+			"key octets are enumerated up to 4093 octets: 4092 is the longest key whose RDATA fits the 4096-octet scratch buffer of KeyTag/ToDS, 4093 the first that does not (reported under its own key *key-over-4092-octets*); DNSKEY RDATA may be up to 65535 octets",
 			"BIND private-key text: RSA integers minimal big-endian, ECDSA PrivateKey fixed-width (32/48 octets), Ed25519 the 32-octet seed; the exported text is read back by an independent strict reader as well as by NewPrivateKey",
 			"fresh keys come from DNSKEY.Generate (crypto/rand): the set of cases is fixed, the key material is not",
 			"ValidityPeriod: times are Unix seconds >= 0; inception/expiration are the 32-bit residues of instants within 68 years (68*365 days) of t; the zero time.Time means 'now' and is checked with the stable-second protocol",
@@ -75,6 +75,9 @@ func c17KeyTagCase(r *fw.R, flags uint16, proto, alg uint8, key []byte, what str
 		cls := "even-length"
 		if len(key)%2 == 1 {
 			cls = "odd-length"
+		}
+		if len(key) > 4092 {
+			cls = "key-over-4092-octets" // RDATA no longer fits the 4096-octet scratch buffer of KeyTag
 		}
 		r.Fail("keytag/"+cls, "DNSKEY flags=%d protocol=%d algorithm=%d key(%s, %d octets)=%s: KeyTag() = %d, RFC 4034 App. B gives %d",
 			flags, proto, alg, what, len(key), c17Clip(key), got, want)
@@ -154,8 +157,17 @@ func c17KeyTagSpace(c *fw.Ctx) {
 	flagsSet := []uint16{0, 1, 256, 257, 0xffff}
 	protoSet := []uint8{0, 3, 255}
 	algSet := []uint8{3, 5, 8, 10, 13, 14, 15, 253}
-	lenSet := []int{0, 1, 2, 3, 64, 65, 255, 256, 1023, 3000}
-	c.Space("keytag", "flags {0,1,256,257,0xffff} × protocol {0,3,255} × algorithm {3,5,8,10,13,14,15,253} × key octets of length {0,1,2,3,64,65,255,256,1023,3000} in patterns {00…, ff…, counting}, plus per header a 4-octet key that makes the 32-bit sum exactly 0x1ffff (the fold produces a second carry), plus the 13 fixed keys; non-trivial: odd key length or sum > 0xffff", true,
+	lenSet := []int{0, 1, 2, 3, 64, 65, 255, 256, 1023, 3000, 4092, 4093}
+	lenDesc := "{0,1,2,3,64,65,255,256,1023,3000,4092,4093}"
+	if c.Thorough {
+		lenSet = nil
+		for n := 0; n <= 132; n++ {
+			lenSet = append(lenSet, n)
+		}
+		lenSet = append(lenSet, 255, 256, 257, 259, 260, 511, 512, 513, 516, 1023, 1024, 3000, 4091, 4092, 4093)
+		lenDesc = "{0..132, 255, 256, 257, 259, 260, 511, 512, 513, 516, 1023, 1024, 3000, 4091, 4092, 4093}"
+	}
+	c.Space("keytag", "flags {0,1,256,257,0xffff} × protocol {0,3,255} × algorithm {3,5,8,10,13,14,15,253} × key octets of length "+lenDesc+" in patterns {00…, ff…, counting}, plus per header a 4-octet key that makes the 32-bit sum exactly 0x1ffff (the fold produces a second carry), plus the 13 fixed keys; non-trivial: odd key length or sum > 0xffff", true,
 		func(emit func(func(*fw.R))) {
 			for _, fl := range flagsSet {
 				for _, pr := range protoSet {
@@ -217,8 +229,9 @@ func c17DSSpace(c *fw.Ctx) {
 			}
 		}
 	}
+	keyset = append(keyset, ks{257, 8, 4092}, ks{257, 8, 4093})
 	nfixed := len(c10KeyNames)
-	c.Space("ds", "12 owner names × spellings {lower, upper, alternating, one upper-case letter as \\DDD} × (40 synthetic DNSKEYs: flags {256,257} × algorithm {8,13,15,253} × counting key octets of length {0,1,64,65,256}, + 13 fixed keys) × digest types {1,2,4} and {0,3,5,255}; non-trivial: the owner spelling contains an upper-case letter", true,
+	c.Space("ds", "12 owner names × spellings {lower, upper, alternating, one upper-case letter as \\DDD} × (42 synthetic DNSKEYs: flags {256,257} × algorithm {8,13,15,253} × counting key octets of length {0,1,64,65,256}, two of 4092 and 4093 octets, + 13 fixed keys) × digest types {1,2,4} and {0,3,5,255}; non-trivial: the owner spelling contains an upper-case letter", true,
 		func(emit func(func(*fw.R))) {
 			for _, lower := range c17Names {
 				for _, form := range c17Forms(lower) {
@@ -259,7 +272,11 @@ func c17DSSpace(c *fw.Ctx) {
 									continue
 								}
 								if ds == nil {
-									r.Fail("ds/nil", "%s: ToDS returned nil", desc)
+									key := "ds/nil"
+									if len(rdata) > 4096 {
+										key = "ds/key-over-4092-octets"
+									}
+									r.Fail(key, "%s: ToDS returned nil", desc)
 									continue
 								}
 								got, err := hex.DecodeString(ds.Digest)
@@ -303,9 +320,9 @@ func c17Salt(n int) []byte {
 }
 
 func c17HashSpace(c *fw.Ctx) {
-	iters := []uint16{0, 1, 2, 3, 10, 100, 150}
+	iters := []uint16{0, 1, 2, 3, 10, 100, 150, 65535}
 	if c.Thorough {
-		iters = append(iters, 1000, 65535)
+		iters = append(iters, 11, 12, 255, 256, 1000, 2500, 65534)
 	}
 	c.Space("nsec3hash", fmt.Sprintf("12 names (root, apex, wildcard, underscore, escaped dot, octets 0 and 255, 63-octet label, 255-octet name, …) × salts of {0,1,8,255} octets × iterations %v × spellings {lower, upper, alternating, one upper-case letter as \\DDD}; non-trivial: iterations > 0 or salt non-empty", iters), true,
 		func(emit func(func(*fw.R))) {
@@ -425,9 +442,9 @@ func c17CoverSpace(c *fw.Ctx) {
 		salt int
 		iter uint16
 	}
-	params := []si{{0, 0}, {4, 1}, {8, 12}}
+	params := []si{{0, 0}, {4, 1}, {8, 12}, {255, 150}}
 	if c.Thorough {
-		params = append(params, si{255, 150}, si{1, 2})
+		params = append(params, si{1, 2}, si{0, 100}, si{16, 0}, si{8, 2500})
 	}
 	offs := c17Offsets()
 	c.Space("cover", "NSEC3 records built by construction: owner hash = H(name)+a, next hash = H(name)+b (mod 2^160) for a, b ∈ {−3·2^151, −2^150, −2, −1, 0, +1, +2, +2^150, +3·2^151} (all 81 pairs: normal, wrapping, empty, adjacent intervals × hash below / = owner / owner+1 / inside / next−1 / = next / above) × zones {example., sub.example., .} × names {in zone, wildcard, apex, parent, other TLD, string-suffix sibling, root} × (salt, iterations) × name spelling {lower, upper} × owner label {upper, lower} × NextDomain {upper, lower}; expected Match/Cover from 160-bit integer comparison and label-wise zone membership; non-trivial: name inside the record's zone", true,
